@@ -65,7 +65,7 @@ def generate(seed, tier="quick", mode=None, child=False, **kw):
     r = random.Random(seed)
     mode = mode or r.choice(["c13", "c10"])
     if mode == "c10":
-        return _gen_c10(r, seed)
+        return _gen_c10(r, seed, child)
     feats = [f for f in ("pwd", "ip", "words", "as") if r.random() < 0.6] or ["pwd"]
     nosalt = r.random() < 0.12
     o = GC.gen_opts(r, features=feats, cli_safe=True, j9=True)
@@ -269,7 +269,7 @@ def _res(plan, V, probes, steps, digest_items, nontrivial):
 # ---------------------------------------------------------------------------
 # C10
 # ---------------------------------------------------------------------------
-def _gen_c10(r, seed):
+def _gen_c10(r, seed, child=False):
     feats = ["words"] + [f for f in ("pwd", "ip", "as") if r.random() < 0.2]
     o = GC.gen_opts(r, features=feats, cli_safe=True, j9=True)
     style = r.choice(["overlap", "plain", "reserved"])
@@ -335,7 +335,8 @@ def _gen_c10(r, seed):
             it.pop("bad", None)
     return {"family": NAME, "seed": seed, "mode": "c10", "files": [{"path": "in/a.cfg", "lines": lines}], "dirs": ["in"],
             "secrets": secrets, "opts": o, "entry": r.choice(["cli", "files", "io", "file"]), "orders": orders, "pre": pre,
-            "k1": GC.gen_knobs(r), "style": style, "rw": rw, "user_reserved": user_res}
+            "k1": GC.gen_knobs(r), "style": style, "rw": rw, "user_reserved": user_res,
+            "child_hashseeds": [r.randint(1, 4_000_000_000) for _ in range(2)] if child else []}
 
 
 def _check_c10(plan):
@@ -362,13 +363,26 @@ def _check_c10(plan):
     steps = 0
     digest_items = []
     outs = []
+    for hs in plan.get("child_hashseeds", []):
+        execs.append((("child", hs), plan["pre"]))
+    probes["child_runs"] = 0
     for order, pre in execs:
-        knobs = dict(plan["k1"], set_order=order)
         step = {"entry": plan["entry"], "opts": o, "in": "in/a.cfg", "out": "out.cfg", "dump": None}
-        H = W.run_world({"disk": disk, "procs": [{"knobs": knobs, "faults": [], "pre": pre, "steps": [step]}]})
-        h = H["procs"][0]
+        if isinstance(order, tuple):
+            probes["child_runs"] += 1
+            knobs = dict(plan["k1"], real_set_order=True)
+            H = core.run_child_world({"disk": disk, "procs": [{"knobs": knobs, "faults": [], "pre": pre, "steps": [step]}]}, order[1])
+            h = H["procs"][0]
+            h["nsys"] = len(h["trace"])
+            h["set_order_entries"] = 0
+            order = "real interpreter PYTHONHASHSEED=%d" % order[1]
+            digest_items.append({k: v for k, v in h.items() if k in ("steps", "outcome", "logs", "handed", "snap")})
+        else:
+            knobs = dict(plan["k1"], set_order=order)
+            H = W.run_world({"disk": disk, "procs": [{"knobs": knobs, "faults": [], "pre": pre, "steps": [step]}]})
+            h = H["procs"][0]
+            digest_items.append(W.public_hist(h))
         steps += h["nsys"] + 1
-        digest_items.append(W.public_hist(h))
         if pre:
             probes["prehistory_execs"] += 1
         probes["set_seam_entered"] += int(h["set_order_entries"] > 0)
